@@ -173,10 +173,22 @@ __CPROVER_ensures(cv_words[0] == SPEC_LOAD32(bytes_out, 0) && cv_words[1] == SPE
                                        flags_start, flags_end, VW_IDX(out) / 32, VW_IDX(out) % 32)))
 
 /* ---- portable kernels (bodies verified in their own units) -------------------------- */
-/* the 7 rounds: writes exactly the 16 state words.  *_fn: they are THE uninterpreted function of the five
+/* the 7 rounds: writes exactly the 16 state words.  *_fn: they are THE uninterpreted function PRE of the five
  * value arguments (this clause is the definition of VERIF_UF_PRE: compress_pre is a deterministic C function
- * of exactly these arguments, see its frame unit); the two portable kernels are then ENFORCED against
- * cv' = lo ^ hi resp. out = (lo ^ hi, hi ^ cv), the feed-forward they implement themselves */
+ * of exactly these arguments, see its frame unit).  In the two units blake3_compress_{in_place,xof}_portable_fn
+ * (-DVERIF_FN_PORTABLE) the portable kernels are ENFORCED against the feed-forward they implement themselves,
+ * cv' = lo ^ hi resp. out = (lo ^ hi, hi ^ cv); everywhere else they are, like the SIMD kernels, CIP / XOF. */
+#ifdef VERIF_FN_PORTABLE
+#define COMPRESS_IN_PLACE_PORTABLE_FN                                                    \
+  FN(__CPROVER_requires(VERIF_DISJ(cv, 32, block, 64)))                                  \
+  FN(__CPROVER_ensures(V256(cv) == VERIF_FF_CIP(VERIF_PRE_V(__CPROVER_old(V256(cv)), V512(block), block_len, counter, flags))))
+#define COMPRESS_XOF_PORTABLE_FN                                                         \
+  FN(__CPROVER_requires(VERIF_DISJ(out, 64, cv, 32) && VERIF_DISJ(out, 64, block, 64)))  \
+  FN(__CPROVER_ensures(V512(out) == VERIF_FF_XOF(VERIF_UF_PRE(cv, block, block_len, counter, flags), V256(cv))))
+#else
+#define COMPRESS_IN_PLACE_PORTABLE_FN COMPRESS_IN_PLACE_FN
+#define COMPRESS_XOF_PORTABLE_FN COMPRESS_XOF_FN
+#endif
 static inline void compress_pre(uint32_t state[16], const uint32_t cv[8],
                                 const uint8_t block[BLAKE3_BLOCK_LEN], uint8_t block_len,
                                 uint64_t counter, uint8_t flags)
@@ -192,7 +204,7 @@ void blake3_compress_in_place_portable(uint32_t cv[8], const uint8_t block[BLAKE
                                        uint8_t block_len, uint64_t counter, uint8_t flags)
 COMPRESS_IN_PLACE_REQUIRES
 __CPROVER_assigns(__CPROVER_object_upto(cv, 32))
-COMPRESS_IN_PLACE_FN
+COMPRESS_IN_PLACE_PORTABLE_FN
 ;
 
 void blake3_compress_xof_portable(const uint32_t cv[8], const uint8_t block[BLAKE3_BLOCK_LEN],
@@ -200,7 +212,7 @@ void blake3_compress_xof_portable(const uint32_t cv[8], const uint8_t block[BLAK
                                   uint8_t out[64])
 COMPRESS_XOF_REQUIRES
 __CPROVER_assigns(__CPROVER_object_upto(out, 64))
-COMPRESS_XOF_FN
+COMPRESS_XOF_PORTABLE_FN
 ;
 
 static inline void hash_one_portable(const uint8_t *input, size_t blocks, const uint32_t key[8],
